@@ -30,6 +30,18 @@ pub enum E { A, B(u8), C { v: u8 } }
 pub enum Color { Red, Green, Blue }
 pub use Color::*;
 
+/// `==` is not symmetric: the right operand's `w` makes it a wildcard.
+#[derive(Clone, Debug)]
+pub struct Q { pub v: u8, pub w: bool }
+impl PartialEq for Q { fn eq(&self, other: &Q) -> bool { other.w || self.v == other.v } }
+
+/// Equal to a `str` regardless of case; its `AsRef<str>` view is the raw text.
+#[derive(Clone, Debug)]
+pub struct Hdr(pub &'static str);
+impl PartialEq<str> for Hdr { fn eq(&self, other: &str) -> bool { self.0.eq_ignore_ascii_case(other) } }
+impl PartialEq<&str> for Hdr { fn eq(&self, other: &&str) -> bool { self.0.eq_ignore_ascii_case(other) } }
+impl AsRef<str> for Hdr { fn as_ref(&self) -> &str { self.0 } }
+
 #[derive(Clone, Debug, PartialEq)]
 pub struct Newtype(pub String);
 impl AsRef<str> for Newtype { fn as_ref(&self) -> &str { self.0.as_str() } }
@@ -44,6 +56,8 @@ TYPES = {
     "S": ("S", ["S { a: 0, b: false }", "S { a: 1, b: true }", "S { a: 1, b: false }", "S { a: 2, b: true }"]),
     "E": ("E", ["E::A", "E::B(0)", "E::B(1)", "E::B(2)", "E::C { v: 0 }", "E::C { v: 1 }"]),
     "color": ("Color", ["Red", "Green", "Blue"]),
+    "asym": ("Q", ["Q { v: 0, w: false }", "Q { v: 1, w: false }", "Q { v: 1, w: true }", "Q { v: 2, w: true }"]),
+    "hdr": ("Hdr", ['Hdr("ct")', 'Hdr("CT")', 'Hdr("x")']),
     "str": ("&str", ['"a"', '"b"', '"c"']),
     "string": ("String", ['"a".to_string()', '"b".to_string()', '"c".to_string()']),
     "newtype": ("Newtype", ['Newtype("a".to_string())', 'Newtype("b".to_string())', 'Newtype("c".to_string())']),
@@ -62,6 +76,9 @@ ATOMS = {
     "S": ["S { a: 1, .. }", "S { a: _, b: true }", "S { .. }", "S { a: 0..=1, b: _ }", "S { a: {b}, b: false }", "_", "eq!(&S { a: 1, b: true })"],
     "E": ["E::A", "E::B(1)", "E::B(_)", "E::C { v: 0..=0 }", "E::A | E::B(2)", "E::C { .. }", "E::B({b})", "_", "ne!(&E::A)"],
     "color": ["Red", "Green | Blue", "Color::Blue", "_"],
+    # eq!/ne! are the argument's own `==` / `!=` with the operand on the right
+    "asym": ["eq!(&Q { v: 0, w: true })", "eq!(&Q { v: 1, w: false })", "ne!(&Q { v: 0, w: true })", "ne!(&Q { v: 2, w: false })", "_"],
+    "hdr": ['eq!("ct")', 'ne!("ct")', 'eq!("X")', "_"],
     "str": ['"a"', '"a" | "b"', "_", "{b}", '"c" | "a"'],
     "string": ['"a"', '"a" | "b"', "_", "{b}"],
     "newtype": ['"a"', '"b" | "c"', "_"],
@@ -306,6 +323,15 @@ def shapes(tier):
         add(["u8", "str"], [[nm, '"a"']], must_accept="binding-name")
         add(["str", "u8"], [['"a" | "b"', nm]], f"*{nm} >= 2", must_accept="binding-name")
         add(["u8"], [[f"{nm} @ 1..=2"]], f"*{nm} == 2", must_accept="binding-name")
+    # user-defined equality: asymmetric ==, and == against a string literal for a type that also
+    # has an AsRef<str> view
+    for a in ATOMS["asym"]:
+        add(["u8", "asym"], [["_", a]])
+        add(["asym", "u8"], [[a, "1"], ["_", "0"]])
+    for a in ATOMS["hdr"]:
+        add(["hdr", "u8"], [[a, "_"]])
+        add(["hdr", "u8"], [[a, "1..=2"], ["_", "3"]])
+        add(["u8", "hdr"], [["0", a]], None)
     # eq! and ne! at the same position of different alternatives
     for c1, c2 in [("eq!(&1)", "ne!(&2)"), ("ne!(&2)", "eq!(&1)"), ("ne!(&0)", "eq!(&3)")]:
         add(["u8", "u8"], [[c1, "_"], [c2, "3"]])
@@ -559,7 +585,7 @@ def run(pid, tier, replay, start):
     cov = {
         "evaluations": len(kept),
         "distinct_nontrivial": len(set(i.key for i in kept if any(a != "_" for alt in i.meta["alts"] for a in alt))),
-        "rule": "catalogue-driven grammar of matching! invocations (see gen/c06.py): all sub-patterns of 11 argument types for 1 argument, all u8-binding patterns x 3 guards, type pairs x sub-pattern catalogues for 2 arguments, guard x eq!/ne! combinations, every pair of two-alternative disjunctions over 6 (quick: 4) sub-patterns with eq!/ne! in all positions, mixed literal kinds per position, 3 arguments, bindings named like the identifiers of the expansion (a<i>, l<k>, m<i>, reporter, mismatch) next to eq!/ne! and string literals, eq!/ne! mixed at one position across alternatives; each instance evaluated on every argument tuple of its finite domain in three evaluation modes against a native match; non-trivial = not all sub-patterns are wildcards; distinct = distinct invocation texts",
+        "rule": "catalogue-driven grammar of matching! invocations (see gen/c06.py): all sub-patterns of 11 argument types for 1 argument, all u8-binding patterns x 3 guards, type pairs x sub-pattern catalogues for 2 arguments, guard x eq!/ne! combinations, every pair of two-alternative disjunctions over 6 (quick: 4) sub-patterns with eq!/ne! in all positions, mixed literal kinds per position, 3 arguments, bindings named like the identifiers of the expansion (a<i>, l<k>, m<i>, reporter, mismatch) next to eq!/ne! and string literals, eq!/ne! mixed at one position across alternatives, eq!/ne! over a type with an asymmetric == and over a type that is both PartialEq<str> and AsRef<str>; each instance evaluated on every argument tuple of its finite domain in three evaluation modes against a native match; non-trivial = not all sub-patterns are wildcards; distinct = distinct invocation texts",
         "samples": [{"pattern": sample.key, "code": sample.code[:1500]}],
         "exhaustive": True,
         "generated": len(insts),
